@@ -94,6 +94,35 @@ def pCode : P Code := do
   let tag ← pNat
   if tag == 0 then pure (.int (← pInt)) else pure (.str (← pStr))
 
+def pOp : P Op := do
+  let tag ← pNat
+  match tag with
+  | 0 => do let d ← pNat; let t ← pStr; let n ← pNat; let ss ← pMany n pSArg; pure (.new d t ss)
+  | 1 => do let d ← pNat; let src ← pNat; let n ← pNat; let ss ← pMany n pSArg; pure (.copy d src ss)
+  | 2 => do let v ← pNat; let a ← pSArg; let st ← pOptInt; let en ← pOptInt; let top ← pBool; pure (.apply v a st en top)
+  | 3 => do let v ← pNat; let a ← pOptSArg; let st ← pOptInt; let en ← pOptInt; pure (.remove v a st en)
+  | 4 => do pure (.clear (← pNat))
+  | 5 => do let d ← pNat; let src ← pNat; let a ← pOptInt; let b ← pOptInt; pure (.slice d src a b)
+  | 6 => do let d ← pNat; let src ← pNat; let i ← pInt; pure (.index d src i)
+  | 7 => do let v ← pNat; let w ← pNat; pure (.iadd v w)
+  | 8 => do let d ← pNat; let v ← pNat; let w ← pNat; pure (.add d v w)
+  | 9 => do let d ← pNat; let v ← pNat; let t ← pStr; pure (.addStr d v t)
+  | 10 => do let d ← pNat; let src ← pNat; let w ← pInt; let f ← pStr; let e ← pBool; pure (.ljust d src w f e)
+  | 11 => do let d ← pNat; let src ← pNat; let w ← pInt; let f ← pStr; let e ← pBool; pure (.rjust d src w f e)
+  | 12 => do let d ← pNat; let src ← pNat; let w ← pInt; let f ← pStr; let e ← pBool; pure (.center d src w f e)
+  | 13 => do let v ← pNat; let t ← pStr; pure (.assign v t)
+  | 14 => do pure (.simplify (← pNat))
+  | 15 => do let d ← pNat; let src ← pNat; let cs ← pOptStr; let l ← pBool; let r ← pBool; pure (.strip d src cs l r)
+  | 16 => do let d ← pNat; let src ← pNat; let p ← pStr; pure (.removeprefix d src p)
+  | 17 => do let d ← pNat; let src ← pNat; let p ← pStr; pure (.removesuffix d src p)
+  | 18 => do
+    let d ← pNat; let src ← pNat; let old ← pStr; let kind ← pNat
+    let new ← (if kind == 0 then do pure (Sum.inl (← pNat)) else do pure (Sum.inr (← pStr)))
+    let count ← pInt
+    pure (.replace d src old new count)
+  | 19 => do let src ← pNat; let spec ← pOptStr; let o ← pBool; let rs ← pBool; let re ← pBool; pure (.render src spec o rs re)
+  | _ => do let src ← pNat; let a ← pSArg; let st ← pOptInt; let en ← pOptInt; let rev ← pBool; pure (.find src a st en rev)
+
 /-! ### printing -/
 
 abbrev Ren := StateM (List Nat)   -- ids in order of first appearance
@@ -318,6 +347,27 @@ def step (op : String) : P String := do
     let r := Term.run Term.default s
     pure ("ok " ++ String.intercalate " " (toString r.1.length :: r.1.map (fun (c, t) => s!"{c.toNat} {showSt t}"))
       ++ " | " ++ showSt r.2 ++ s!" | {if Term.wellFormed s then 1 else 0} " ++ showStr (Term.stripSgr s))
+  | "script" => do
+    -- Mode B: a whole history over the Store op language; after every op the outcome and ALL variables
+    let n ← pNat
+    let mut σ : Store := {}
+    let mut outs : Array String := #[]
+    for _ in [0:n] do
+      let op ← pOp
+      let r := σ.step op
+      σ := r.1
+      let oc := match r.2 with
+        | .ok => "ok"
+        | .str t => "str " ++ showStr t
+        | .range a b => s!"range {showOptNat a} {showOptNat b}"
+        | .err e => showErr e
+        | .unbound => "unbound"
+      let vars := σ.vals.toArray.qsort (fun a b => a.1 < b.1) |>.toList
+      let dump := runRen (do
+        let parts ← vars.mapM (fun kv => do pure s!"{kv.1} {← showAStr kv.2}")
+        pure (String.intercalate " " (toString vars.length :: parts)))
+      outs := outs.push (oc ++ " ; " ++ dump)
+    pure (String.intercalate " || " outs.toList)
   | "tables" => do
     pure (s!"ok {Gen.paramTable.length} {Gen.clearTable.length} {Gen.ctrlFns.length} {Gen.formatTable.length}")
   | "format" => do
